@@ -57,6 +57,10 @@ package jxpath
 //@   ensures [C18:no-separator] ret("strings.IndexByte#0", 0) == -1 ==> (same(r0, s) && len(r1) == 0)
 //@   ensures len(r0) <= len(s) && len(r1) <= len(s)
 //@   assigns nothing
+//@ func splitStringAtRune
+//@   requires sepRune(r)
+//@   ensures len(r0) <= len(s) && len(r1) <= len(s)
+//@   assigns nothing
 
 // insertSeparatorsAt: the digit string is cut after the given numbers of code points (from the left, or counted from
 // the right), each cut made by decoding that many code points from the current position; the pieces are joined with
@@ -64,6 +68,7 @@ package jxpath
 //@ func insertSeparatorsAt
 //@   opaque-arith
 //@   requires forall k in [0, len(positions)): positions[k] >= 0
+//@   assigns assumed nothing
 //@   atcall[C18:joined-with-the-separator] strings.Join#0 requires len(callee_arg0) == len(positions) + 1
 //@   loop 0 invariant -1 <= $i0 && len(chunks) == $i0 + 1 && cap(chunks) >= len(positions) + 1 && len(s) <= len(integer)
 //@   loop 1 invariant 0 <= pos && pos <= len(s) && -1 <= $i0 && len(chunks) == $i0 + 1 && cap(chunks) >= len(positions) + 1 && len(s) <= len(integer)
@@ -73,29 +78,33 @@ package jxpath
 // (the two scaling loops make progress only then: `value *= 10` cannot raise 0 and moves a negative value away
 // from the bound). Termination of the two floating-point loops themselves is not proved (no integer measure).
 //@ func processPicture
+//@   props C18 C09
+//@   requires fmtOK(format) && len(picture) <= 1073741824
+//@   ensures r1 == nil ==> varsOK(r0)
 //@   assigns nothing
-//@   trusted
 //@ func round
+//@   props C18 C09
 //@   assigns nothing
-//@   trusted
 //@ func makeNumberString
+//@   props C18 C09
 //@   requires format != nil
 //@   assigns nothing
-//@   trusted
 //@ func formatIntegerPart
-//@   requires vars != nil && format != nil
+//@   props C18 C09
+//@   requires vars != nil && format != nil && posOK(vars.IntegerGroupPositions) && 0 <= vars.MinIntegerSize && vars.MinIntegerSize <= 2305843009213693952
 //@   assigns nothing
-//@   trusted
 //@ func formatFractionalPart
-//@   requires vars != nil && format != nil
+//@   props C18 C09
+//@   requires vars != nil && format != nil && posOK(vars.FractionalGroupPositions) && 0 <= vars.MinFractionalSize && vars.MinFractionalSize <= 2305843009213693952
 //@   assigns nothing
-//@   trusted
 //@ func formatExponentPart
-//@   requires vars != nil && format != nil
+//@   props C18 C09
+//@   requires vars != nil && format != nil && 0 <= vars.MinExponentSize && vars.MinExponentSize <= 2305843009213693952
 //@   assigns nothing
-//@   trusted
 //@ func FormatNumber
 //@   abstract-float
+//@   requires fmtOKv(format)
+//@   requires [picture-shorter-than-1GiB] len(picture) <= 1073741824
 //@   assigns nothing
 //@   ensures [C18:empty-picture-is-error] len(picture) == 0 ==> r1 != nil
 //@   ensures [C18:picture-error-propagates] (len(picture) != 0 && ret("processPicture#0", 1) != nil) ==> (r1 == ret("processPicture#0", 1) && len(r0) == 0)
@@ -223,6 +232,83 @@ package jxpath
 //@   atcall[C19:hour-digits-are-the-magnitude] formatInteger#0 requires callee_n == (h < 0 ? -h : h)
 //@   atcall[C19:minute-digits-are-the-magnitude] formatInteger#1 requires callee_n == (m < 0 ? -m : m)
 
+// insertSeparatorsEvery: regular grouping - the digit string is cut every `interval` code points counted from the right;
+// every cut is made by decoding code points backwards from the previous cut, so it never leaves the string.
+//@ func insertSeparatorsEvery
+//@   props C18 C09
+//@   assigns nothing
+//@   loop 0 invariant 0 <= n && n < len(chunks) && 0 <= end && end <= len(s) && interval > 0
+//@   loop 0 decreases n
+//@   loop 1 invariant 0 <= i && 0 <= pos && pos <= end && 0 <= n && n < len(chunks) && 0 < n && end <= len(s) && interval > 0
+
+// The number picture: split into sub-pictures, cut into prefix / integer / fractional / exponent / suffix, validated,
+// analysed into the formatting variables. A decimal format whose separators and digits are valid code points
+// (what $formatNumber's options and the defaults produce: fmtOK) is assumed throughout.
+//@ pred validRune(r rune) = (0 <= r && r < 55296) || (57343 < r && r <= 1114111)
+//@ pred sepRune(r rune) = validRune(r) && r != 65533
+//@ pred fmtOK(f *DecimalFormat) = f != nil && sepRune(f.DecimalSeparator) && sepRune(f.GroupSeparator) && sepRune(f.ExponentSeparator) && sepRune(f.MinusSign) && sepRune(f.ZeroDigit) && sepRune(f.OptionalDigit) && sepRune(f.PatternSeparator)
+//@ pred fmtOKv(f DecimalFormat) = sepRune(f.DecimalSeparator) && sepRune(f.GroupSeparator) && sepRune(f.ExponentSeparator) && sepRune(f.MinusSign) && sepRune(f.ZeroDigit) && sepRune(f.OptionalDigit) && sepRune(f.PatternSeparator)
+//@ pred posOK(p []int) = len(p) <= 1073741824 && (forall k in [0, len(p)): (0 <= p[k] && p[k] <= 1073741824))
+//@ func NewDecimalFormat
+//@   props C18 C09
+//@   ensures fmtOKv(result)
+//@   assigns nothing
+//@ func (*DecimalFormat).isZeroDigit
+//@   props C18 C09
+//@   requires format != nil
+//@   assigns nothing
+//@ func (*DecimalFormat).isDecimalDigit
+//@   props C18 C09
+//@   requires format != nil && validRune(format.ZeroDigit) && 0 <= r && r <= 1114111
+//@   ensures result == (format.ZeroDigit <= r && r <= format.ZeroDigit + 9)
+//@   assigns nothing
+//@ func (*DecimalFormat).isDigit
+//@   props C18 C09
+//@   requires format != nil && validRune(format.ZeroDigit) && 0 <= r && r <= 1114111
+//@   assigns nothing
+//@ func (*DecimalFormat).isActive
+//@   props C18 C09
+//@   requires format != nil && validRune(format.ZeroDigit) && 0 <= r && r <= 1114111
+//@   assigns nothing
+//@ pred varsOK(v subpictureVariables) = posOK(v.IntegerGroupPositions) && posOK(v.FractionalGroupPositions) && 0 <= v.MinIntegerSize && v.MinIntegerSize <= 2305843009213693952 && 0 <= v.MinFractionalSize && v.MinFractionalSize <= 2305843009213693952 && 0 <= v.MaxFractionalSize && v.MaxFractionalSize <= 2305843009213693952 && 0 <= v.MinExponentSize && v.MinExponentSize <= 2305843009213693952 && 0 <= v.ScalingFactor && v.ScalingFactor <= 2305843009213693952
+//@ func processSubpicture
+//@   props C18 C09
+//@   requires fmtOK(format) && len(subpicture) <= 1073741824
+//@   ensures r1 == nil ==> varsOK(r0)
+//@   assigns nothing
+//@ func extractSubpictureParts
+//@   props C18 C09
+//@   requires fmtOK(format)
+//@   ensures len(result.Integer) <= len(subpicture) && len(result.Fractional) <= len(subpicture)
+//@   assigns nothing
+//@ func validateSubpictureParts
+//@   props C18 C09
+//@   requires fmtOK(format)
+//@   assigns nothing
+//@ func analyseSubpictureParts
+//@   props C18 C09
+//@   requires fmtOK(format) && len(parts.Integer) <= 1073741824 && len(parts.Fractional) <= 1073741824
+//@   ensures varsOK(result)
+//@   assigns nothing
+//@ func getGroupPositions
+//@   props C18 C09
+//@   opaque-arith
+//@   precise-append
+//@   requires sepRune(sep) && fn != nil && len(s) <= 1073741824
+//@   ensures posOK(result)
+//@   assigns assumed nothing
+//@   loop 0 invariant len(s) <= len(old(s)) && len(positions) + len(s) <= len(old(s)) && 1 <= length && length <= 4
+//@   loop 0 invariant forall k in [0, len(positions)): (0 <= positions[k] && positions[k] <= (lookLeft ? len(old(s)) - len(s) : len(old(s))))
+//@ func firstRuneInString
+//@   props C18 C09
+//@   assigns nothing
+//@ func lastRuneInString
+//@   props C18 C09
+//@   assigns nothing
+//@ func doubleRune
+//@   props C18 C09
+//@   assigns nothing
+
 // --- C09/C19: the date picture [Y0001]-[M01]... : scanning, variable markers, components ------------------------------------
 // FormatTime copies the text outside markers and expands each marker; start is always a position at or before the
 // scanner ($pos) so every cut of the picture is inside it.
@@ -297,6 +383,10 @@ package jxpath
 //@ func formatTimezone
 //@   props C09 C19
 //@   requires marker != nil
+//@   ensures [C19:non-zero-offsets-are-shown-numerically] (ret("getTimezoneStyle#0", 0) == tzShort && (ret("getTimezoneInfo#0", 1) != 0 || ret("getTimezoneInfo#0", 2) != 0)) ==> calls("formatTimezoneShort#0") == 1
+//@   ensures [C19:non-zero-offsets-are-shown-numerically] (ret("getTimezoneStyle#0", 0) == tzLong && (ret("getTimezoneInfo#0", 1) != 0 || ret("getTimezoneInfo#0", 2) != 0)) ==> calls("formatTimezoneLong#0") == 1
+//@   ensures [C19:non-zero-offsets-are-shown-numerically] (ret("getTimezoneStyle#0", 0) == tzSplit && (ret("getTimezoneInfo#0", 1) != 0 || ret("getTimezoneInfo#0", 2) != 0)) ==> calls("formatTimezoneSplit#0") == 1
+//@   ensures [C19:Z-for-the-zero-offset-with-the-t-modifier] (old(marker.modifier) == modTraditional && ret("getTimezoneInfo#0", 1) == 0 && ret("getTimezoneInfo#0", 2) == 0) ==> (calls("formatTimezoneShort#0") == 0 && calls("formatTimezoneLong#0") == 0 && calls("formatTimezoneSplit#0") == 0)
 //@ func timezoneSign
 //@   props C09 C19
 //@   ensures [C19:sign-of-the-offset] len(result) == 1 && result[0] == ((h < 0 || m < 0) ? 45 : 43)
